@@ -84,6 +84,7 @@ type c20World struct {
 	nextName string
 	probing  bool
 	probeLog []string
+	unfit    bool // subscriptions are on the scalar field count and every event is a number Int cannot take (null + error at the top)
 	reflectE bool // events are reflection structs: resolving them takes Object/FieldDef mutexes inside the registry lock
 }
 
@@ -151,8 +152,8 @@ func (r *c20SubRes) Resolve(field *ggql.Field, args map[string]interface{}) (int
 	return ggql.NewSubscription(&c20Subscriber{w: w, ident: name, id: id, kind: kind}, field, args), nil
 }
 
-func newC20World(initial []c19Sub) *c20World {
-	w := &c20World{cleanups: map[string][]int{}, cur: map[int]*c20CallRec{}}
+func newC20World(initial []c19Sub, unfit bool) *c20World {
+	w := &c20World{cleanups: map[string][]int{}, cur: map[int]*c20CallRec{}, unfit: unfit}
 	w.root = ggql.NewRoot(&c20Root{w})
 	if err := w.root.ParseString(c19SDL); err != nil {
 		panic(core.EngineError{Msg: err.Error()})
@@ -163,7 +164,11 @@ func newC20World(initial []c19Sub) *c20World {
 		if s.ID != "" {
 			arg = fmt.Sprintf("(id: %q)", s.ID)
 		}
-		res := w.root.ResolveString("subscription { ev"+arg+" {name} }", "", nil)
+		q := "subscription { ev" + arg + " {name} }"
+		if unfit {
+			q = "subscription { count" + arg + " }"
+		}
+		res := w.root.ResolveString(q, "", nil)
 		if res["errors"] != nil {
 			panic(core.EngineError{Msg: fmt.Sprintf("initial subscribe failed: %v", res["errors"])})
 		}
@@ -181,6 +186,9 @@ func (w *c20World) perform(th, idx int, c c20Call) *c20CallRec {
 		if w.reflectE {
 			ev = &C19Ev{Name: "first", N: 1}
 		}
+		if w.unfit {
+			ev = int64(1) << 40
+		}
 		cnt, err := w.root.AddEvent(c.ID, ev)
 		rec.Cnt, rec.Err = cnt, err != nil
 	case "unsubscribe":
@@ -190,7 +198,17 @@ func (w *c20World) perform(th, idx int, c c20Call) *c20CallRec {
 		if c.ID != "" {
 			arg = fmt.Sprintf("(id: %q)", c.ID)
 		}
-		res := w.root.ResolveString("subscription { ev"+arg+" {name} }", "", nil)
+		q := "subscription { ev" + arg + " {name} }"
+		switch (th + idx) % 3 {
+		case 1: // the root field written twice (one response key: one subscription)
+			q = "subscription { ev" + arg + " {name} ev" + arg + " {name} }"
+		case 2: // the root field inside an inline fragment
+			q = "subscription { ... on Subscription { ev" + arg + " {name} } }"
+		}
+		if w.unfit {
+			q = "subscription { count" + arg + " }"
+		}
+		res := w.root.ResolveString(q, "", nil)
 		rec.Err = res["errors"] != nil
 	}
 	rec.End = w.now()
@@ -353,10 +371,10 @@ func runC20(c *core.Ctx) {
 	completed := true
 	mem := memTrackOn(c)
 	var maxSched int64
-	for si0 := 0; si0 < 2*len(scenarios); si0++ {
-		si, reflectE := si0/2, si0%2 == 1
+	for si0 := 0; si0 < 3*len(scenarios); si0++ {
+		si, reflectE, unfit := si0/3, si0%3 == 1, si0%3 == 2
 		sc := scenarios[si]
-		if reflectE {
+		if reflectE || unfit {
 			hasPublish := false
 			for _, th := range sc.Threads {
 				for _, cl := range th {
@@ -368,7 +386,11 @@ func runC20(c *core.Ctx) {
 			if !hasPublish {
 				continue
 			}
-			sc.Name += " [reflection events]"
+			if unfit {
+				sc.Name += " [scalar subscriptions, events the field type cannot take]"
+			} else {
+				sc.Name += " [reflection events]"
+			}
 		}
 		if !c.OwnsIdx(int64(si0)) {
 			continue
@@ -411,7 +433,7 @@ func runC20(c *core.Ctx) {
 				c.Eval()
 				c.R.Distinct++
 				core.Announce("C20 scenario " + sc.Name)
-				w := newC20World(sc.Initial)
+				w := newC20World(sc.Initial, unfit)
 				w.reflectE = reflectE
 				var recs []*c20CallRec
 				bodies := make([]func(*sched.Sched), len(sc.Threads))
@@ -612,7 +634,7 @@ func runC20(c *core.Ctx) {
 	if bound < 0 {
 		bs = "ALL interleavings (no preemption bound)"
 	}
-	c.R.Bound = fmt.Sprintf("%d scenarios x {Resolver events, reflection events}; %s; Lock-only choice points (thorough: + a pass with Unlock as a choice point at preemption bound 2); happens-before race check on every schedule; + free-running race pass", len(scenarios), bs)
+	c.R.Bound = fmt.Sprintf("%d scenarios x {Resolver events, reflection events, scalar subscriptions with events the field type cannot take}; %s; Lock-only choice points (thorough: + a pass with Unlock as a choice point at preemption bound 2); happens-before race check on every schedule; + free-running race pass", len(scenarios), bs)
 	if !completed {
 		c.Cap("deadline reached")
 	}
